@@ -381,6 +381,127 @@ pub fn generate(seed: u64, n: usize, thorough: bool, corpus: Option<&str>) -> Ve
             cases.push(run(src, vec!["stream:tiny-milp".into()], &mut pool));
         }
     }
+    // ---- inputs that END right after a line break (empty / blank sources, every seed program cut after each of its line
+    //      breaks, constructs whose grammar swallows newlines left open): the parser's error glue must render them - deterministic
+    {
+        let mut k = 0usize;
+        let mut srcs: Vec<String> = vec!["".into(), "\n".into(), "   \n".into(), "\n\n\n".into(), "\t\n  \n".into(), " ".into(),
+            "min 1\ns.t.\n    x >= sum(i in 0..2) {\n".into(), "min 1\ns.t.\n    x >= max {\n".into(), "min 1\ns.t.\n    x >= 1\nwhere\n    let A = [1, 2,\n".into(),
+            "min 1\ns.t.\n    x >= 1\nwhere\n    let G = Graph {\n".into(), "min 1\ns.t.\n    x >= len([\n".into(), "min 1\ns.t.\n    x >= 1\nwhere\n    let G = Graph { A -> [\n".into(),
+            "min 1\ns.t.\n    x >= (1 +\n".into(), "min 1\ns.t.\n    x_{\n".into(), "min 1\ns.t.\n    x >= 1 for i in\n".into(), "min 1\ns.t.\n    x >= 1\ndefine\n    x as IntegerRange(\n".into(),
+            "min\n".into(), "min 1\ns.t.\n".into(), "min 1\ns.t.\n    x >= 1\nwhere\n".into(), "min 1\ns.t.\n    x >= 1\ndefine\n".into(), "min 1\ns.t.\n    x >= 1\nwhere\n    let a =\n".into()];
+        for p in SEED_PROGRAMS.iter() {
+            for (i, ch) in p.char_indices() { if ch == '\n' { srcs.push(p[..=i].to_string()); } }
+        }
+        for src in srcs { cases.push(run(src, vec!["stream:ends-after-line-break".into(), format!("ends-after-line-break:{}", k)], &mut pool)); k += 1; }
+    }
+    // ---- errors that sit on NON-ASCII text (string literals, identifiers, a comment before the error on the same line) in
+    //      syntactically valid programs: the rendered trace must exist AND quote the offending text in full - deterministic
+    {
+        let strings = ["\"日本語\"", "\"héllo wörld\"", "\"ключ\"", "\"añb\"", "\"😀x\"", "\"ß\""];
+        let mut k = 0usize;
+        let mut progs: Vec<(String, String, String)> = vec![];   // (template, source, text the trace must quote)
+        for s in strings.iter() {
+            progs.push(("cmp-string".into(), format!("min 1\ns.t.\n    x <= {}\ndefine\n    x as Real\n", s), format!("x <= {}", s)));
+            progs.push(("len-string".into(), format!("min 1\ns.t.\n    x >= len({})\ndefine\n    x as Real\n", s), format!("len({})", s)));
+            progs.push(("index-string".into(), format!("min 1\ns.t.\n    x >= A[{}]\nwhere\n    let A = [1, 2]\ndefine\n    x as Real\n", s), format!("A[{}]", s)));
+            progs.push(("unknown-fn".into(), format!("min 1\ns.t.\n    x >= nope({})\ndefine\n    x as Real\n", s), format!("nope({})", s)));
+            progs.push(("iter-string".into(), format!("min 1\ns.t.\n    x >= 1 for i in {}\ndefine\n    x as Real\n", s), format!("i in {}", s)));
+            progs.push(("compound-index".into(), format!("min 1\ns.t.\n    x_{{{}}} >= 1\ndefine\n    x_i as Real for i in 0..2\n", s), format!("x_{{{}}}", s)));
+            progs.push(("range-arg".into(), format!("min 1\ns.t.\n    x >= 1 for i in range(0, {}, true)\ndefine\n    x as Real\n", s), format!("range(0, {}, true)", s)));
+            progs.push(("domain-bound".into(), format!("min 1\ns.t.\n    x >= 1\ndefine\n    x as Real(0, {})\n", s), format!("x as Real(0, {})", s)));
+            progs.push(("sum-body".into(), format!("min 1\ns.t.\n    sum(i in 0..2) {{ {} }} >= 1\ndefine\n    x as Real\n", s), format!("{{ {} }}", s)));
+            progs.push(("objective".into(), format!("min {}\ns.t.\n    x >= 1\ndefine\n    x as Real\n", s), s.to_string()));
+            progs.push(("two-strings".into(), format!("min 1\ns.t.\n    x >= len({}) + len({})\ndefine\n    x as Real\n", s, s), format!("len({})", s)));
+        }
+        for id in ["ü", "ñandú", "Ärger", "данные", "变量"] {
+            progs.push(("undeclared-identifier".into(), format!("min 1\ns.t.\n    x >= {}\ndefine\n    x as Real\n", id), id.to_string()));
+            progs.push(("out-of-bounds-identifier".into(), format!("min 1\ns.t.\n    x >= {}[3]\nwhere\n    let {} = [1]\ndefine\n    x as Real\n", id, id), format!("{}[3]", id)));
+            progs.push(("string-plus-identifier".into(), format!("min 1\ns.t.\n    x >= len({} + 1)\nwhere\n    let {} = \"ö\"\ndefine\n    x as Real\n", id, id), format!("{} + 1", id)));
+            progs.push(("comment-before".into(), format!("min 1\ns.t.\n    /* {} ü */ x <= \"a\"\ndefine\n    x as Real\n", id), "x <= \"a\"".to_string()));
+        }
+        for (tag, src, expect) in progs {
+            let src = clamp(src);
+            let mut c = Case::default();
+            c.tags = vec!["stream:non-ascii-errors".into(), format!("non-ascii-error:{}", tag), format!("non-ascii-errors:{}", k)];
+            c.show = src.clone();
+            let res = pool.run(&src, true);
+            classify(&src, &res, &mut c);
+            // the first failing stage must be a rendered error that quotes the offending text in full
+            if let Some(st) = res.stages.iter().find(|s| s.outcome != "ok") {
+                if st.outcome.starts_with("err:") && !st.detail.contains(&expect) && c.impl_violation.is_none() {
+                    c.sig = Some(format!("render-truncated:{}", st.stage));
+                    c.impl_violation = Some(format!("the rendered error of stage {} does not quote the offending text `{}` in full: {}", st.stage, expect, st.detail));
+                }
+            } else if c.impl_violation.is_none() {
+                c.sig = Some("non-ascii-block-expectation".into());
+                c.impl_violation = Some("the program of the non-ASCII block was expected to end in a rendered error".into());
+            }
+            cases.push(c);
+            k += 1;
+        }
+    }
+    // ---- multi-index array access with each index position in turn out of range (by one, by many, negative, fractional) on
+    //      matrices, jagged arrays and 3-level arrays, literal indexes and loop variables: OutOfBounds, never a panic - deterministic
+    {
+        let data = "    let M = [[1, 2], [3, 4]]\n    let J = [[1], [2, 3], [4, 5, 6]]\n    let T = [[[1, 2], [3]], [[4]]]\n    let W = [7, 8, 9]\n";
+        let mut k = 0usize;
+        let mut exprs: Vec<String> = vec![];
+        for (name, dims) in [("M", vec![2usize, 2]), ("J", vec![3, 1]), ("T", vec![2, 2, 2])] {
+            for pos in 0..dims.len() {
+                for bad in ["by-one", "by-many", "negative", "fraction"] {
+                    let ix: Vec<String> = (0..dims.len()).map(|p| if p == pos { match bad { "by-one" => dims[p].to_string(), "by-many" => "7".to_string(), "negative" => "(0 - 1)".to_string(), _ => "0.5".to_string() } } else { "0".to_string() }).collect();
+                    exprs.push(format!("{}{}", name, ix.iter().map(|i| format!("[{}]", i)).collect::<String>()));
+                }
+            }
+        }
+        exprs.extend(["J[2][3]", "J[0][1]", "J[1][2]", "T[1][1][0]", "T[0][1][1]", "T[1][0][1]", "T[0][2][0]", "M[2][2]", "W[0][0]", "W[3][0]", "M[0][0][0]", "T[0][0][0][0]", "M[1][1]", "T[1][0][0]"].iter().map(|s| s.to_string()));
+        let mut progs: Vec<String> = exprs.iter().map(|e| format!("min 1\ns.t.\n    z >= {}\nwhere\n{}define\n    z as Real\n", e, data)).collect();
+        for (body, it) in [("M[i][0]", "i in 0..3"), ("M[0][i]", "i in 0..3"), ("J[i][i]", "i in 0..3"), ("T[i][1][0]", "i in 0..2"), ("T[0][i][0]", "i in 0..3"), ("T[0][0][i]", "i in 0..3"), ("M[i][j]", "i in 0..3, j in 0..2"), ("J[i][j]", "(i, j) in [[2, 2], [3, 0]]"), ("M[len(W)][0]", "i in 0..1")] {
+            progs.push(format!("min 1\ns.t.\n    z >= {} for {}\nwhere\n{}define\n    z as Real\n", body, it, data));
+            progs.push(format!("min 1\ns.t.\n    z >= sum({}) {{ {} }}\nwhere\n{}define\n    z as Real\n", it, body, data));
+            progs.push(format!("min 1\ns.t.\n    z >= 0\nwhere\n{}define\n    z as Real\n    y_i as IntegerRange(0, {}) for {}\n", data, body.replace("[i][j]", "[i][0]"), it.split(',').next().unwrap_or(it)));
+        }
+        for src in progs { cases.push(run(src, vec!["stream:multi-index-access".into(), format!("multi-index-access:{}", k)], &mut pool)); k += 1; }
+    }
+    // ---- tableau start: standard forms with at least as many private positive columns as rows that do NOT cover every row
+    //      (one `<=` row owning several otherwise unused unbounded variables, next to equality / pinned rows owning none):
+    //      no basis can be read off, the tableau solver must fall back (two phases) - deterministic block, the same on every seed
+    {
+        let mut rr = Rng::new(0x7ab1ea5);
+        let mut k = 0usize;
+        let mut push = |src: String, cases: &mut Vec<Case>, pool: &mut Pool| { cases.push(run(src, vec!["stream:tableau-start".into(), format!("tableau-start:{}", k)], pool)); k += 1; };
+        // the two shapes of the description, verbatim
+        push("max x\ns.t.\n    y + z - t <= 5\n    x = 3\ndefine\n    x, y, z, t as NonNegativeReal\n".into(), &mut cases, &mut pool);
+        push("max x\ns.t.\n    y + z + u - t <= 5\n    x + w = 3\n    x - w = 1\ndefine\n    x, y, z, u, t, w as NonNegativeReal\n".into(), &mut cases, &mut pool);
+        for i in 0..30 {
+            let np = 2 + rr.below(3);                       // private columns of the first row
+            let ne = 1 + rr.below(2);                       // rows without a private column
+            let priv_vars: Vec<String> = (0..np).map(|j| format!("p{}", j)).collect();
+            let mut names = priv_vars.clone();
+            names.push("t".into());
+            let mut rows = format!("    {} - t <= {}\n", priv_vars.iter().map(|v| { let c = rr.range(1, 3); if c == 1 { v.clone() } else { format!("{} * {}", c, v) } }).collect::<Vec<_>>().join(" + "), rr.range(1, 9));
+            let objv;
+            if ne == 1 {
+                names.push("x".into());
+                rows.push_str(&format!("    {}x = {}\n", if rr.chance(1, 2) { "" } else { "2 * " }, rr.range(1, 6)));
+                objv = "x".to_string();
+            } else {
+                names.push("x".into()); names.push("w".into());
+                let (a, b) = (rr.range(2, 7), rr.range(0, 2));
+                rows.push_str(&format!("    x + w = {}\n    x - w = {}\n", a, b));
+                objv = if rr.chance(1, 2) { "x".to_string() } else { "x + w".to_string() };
+            }
+            if i % 5 == 4 { rows.push_str(&format!("    x >= {}\n", rr.range(0, 1))); }
+            let sense = if i % 3 == 2 { "min" } else { "max" };
+            let ty = if i % 4 == 3 { "Real" } else { "NonNegativeReal" };
+            let tyx = if i % 7 == 6 { "Real(0, 9)" } else { "NonNegativeReal" };
+            let others: Vec<String> = names.iter().filter(|n| *n != "x" && *n != "w").cloned().collect();
+            let xs: Vec<String> = names.iter().filter(|n| *n == "x" || *n == "w").cloned().collect();
+            let src = format!("{} {}\ns.t.\n{}define\n    {} as {}\n    {} as {}\n", sense, objv, rows, others.join(", "), ty, xs.join(", "), tyx);
+            push(src, &mut cases, &mut pool);
+        }
+    }
     let restarts = pool.restarts;
     drop(pool);
     // ---- the primitive operator core (in-process, catch_unwind): correspondence with Rooc/Pre/Prim.lean
